@@ -22,6 +22,7 @@ class World:
         self.rng = rng; self.now = 0; self.binds = {}; self.all_socks = []; self.inflight = []; self.seq = itertools.count()
         self.max_delay = int(max_delay_ms * 1_000_000); self.loss = loss; self.push_hwm = push_hwm
         self.prio = None; self.sent = 0; self.dropped = 0; self.on_post = None; self.dead_drop = True
+        self.sub_connect = 0      # slow joiner: a SUB connection carries publishes only from (connect time + up to this many ns) on; PUSH connections are up at once
 
     def time_ns(self): return self.now
 
@@ -56,7 +57,10 @@ class FakeSocket(Socket):
         if addr in WORLD.binds and not WORLD.binds[addr].closed: raise ZMQError(f'Address already in use: {addr}')
         WORLD.binds[addr] = self; self.addr = addr
 
-    def connect(self, addr): self.addr = addr
+    def connect(self, addr):
+        self.addr = addr
+        w = WORLD
+        self.up_at = w.now + (w.rng.randint(0, w.sub_connect) if (self.typ == SUB and w.sub_connect and w.rng) else 0)
 
     def _peer(self): return WORLD.binds.get(self.addr)
 
@@ -66,6 +70,7 @@ class FakeSocket(Socket):
         self.sent.append(msg)
         if self.typ == PUB:
             for sub in [s for s in w.all_socks if s.typ == SUB and not s.closed and s._peer() is self]:
+                if getattr(sub, 'up_at', 0) > w.now: continue       # PUB/SUB connection not established yet: the publish is lost for this subscriber
                 if any(msg[0].startswith(p) for p in sub.subs):
                     if w.loss and w.rng.random() < w.loss: w.dropped += 1; continue
                     w.post(sub, msg, self)
